@@ -82,6 +82,12 @@ func (runInfo *runInfoStruct) funcExpr() {
 	// variadic functions and functions with many parameters go through
 	// reflect.MakeFunc
 
+	if len(funcExpr.Params) > 125 {
+		// reflect.FuncOf allows 128 in+out types; context + 2 results are ours
+		runInfo.err = newStringError(funcExpr, "function has too many parameters")
+		runInfo.rv = nilValue
+		return
+	}
 	// create the inTypes needed by reflect.FuncOf
 	inTypes := make([]reflect.Type, len(funcExpr.Params)+1)
 	// for runVMFunction first arg is always context
